@@ -277,7 +277,7 @@ def finding_key(case, res):
 
 
 MANIFEST = {
-    "text": ("Proof: 13 Lean theorems about the executable model of are_sigma_separated (the code after the two fixes of defect F9). "
+    "text": ("Proof: 12 Lean theorems about the executable model of are_sigma_separated (the code after the two fixes of defect F9). "
              "On EVERY mixed graph from_edges can build — cycles, self-loops, parallel edges — and all arguments: the outcome for "
              "(a, b) equals the outcome for (b, a), verdict or error (sigma_symm: the DFS enumerates exactly the simple paths, "
              "simple paths reverse, every triple predicate and the backtrack augmentation are reversal invariant); two distinct "
